@@ -9,14 +9,22 @@ import "time"
 // over the foreign record except by legitimate preemption.
 func vpH_C13_T_follower() { vpC13Follower(false) }
 
-// thorough: the interfering rewrite is arbitrary bytes as well
+// thorough: a well-formed record of symbolic priority is rewritten with arbitrary bytes at any store-visible point
 func vpH_C13_T_follower_arb() { vpC13Follower(true) }
 
 func vpC13Follower(arbRewrite bool) {
-	takeover := vpChoose("takeover", 2) == 1
+	takeover := arbRewrite || vpChoose("takeover", 2) == 1 // thorough variant: the takeover-enabled candidate only
 	vpSetOpt("rand-fixed", 1)
 	st := vpNewStore("g", 0)
-	r := vpRec("r0")
+	var r []byte
+	if arbRewrite {
+		// thorough variant: the first record is a well-formed payload of symbolic priority, the rewrite is arbitrary
+		p0 := vpInt("prio0")
+		vpAssume(vpAnd(p0 >= 0, p0 <= 1000))
+		r = vpRecMk("y", "tok-y", p0)
+	} else {
+		r = vpRec("r0")
+	}
 	st.write("env:outsider", "create", r, false, 0)
 	kv := vpHandle(st, "a")
 	cfg := vpBaseConfig("a", time.Second, 3*time.Second)
